@@ -15,6 +15,7 @@ func init() {
 		Explain: "Decides RPC gating for every request sequence as shape facts of the dispatcher: every handler call in AgentIPC.handleRequest except the handshake is unreachable once the edges establishing 'version != 0' (and 'command == handshake') are cut, and every handler call except handshake and auth is unreachable once the edges establishing 'no auth key configured', 'didAuth', 'command == auth' and 'command == handshake' are cut; each call sits in the switch arm of its own command constant (the command is never written); handlers are called from nowhere else and the dispatcher only from the client loop; IPCClient.version is written only by the handshake handler behind version-in-range ∧ not-yet-set, didAuth only by the auth handler behind key equality; both reject paths send a header carrying the request's sequence number and a non-empty constant error before returning; the dispatcher itself touches no agent state.",
 		Run: runC24,
 		Mutants: []Mutant{
+			{Name: "rename-locals", Equivalent: true, Regexp: true, File: "cmd/serf/command/agent/ipc.go", Func: "func (i *AgentIPC) handleHandshake(", Old: `\b(req|resp)\b`, New: "${1}Renamed"},
 			{Name: "stats-before-auth", File: "cmd/serf/command/agent/ipc.go", Func: "func (i *AgentIPC) handleRequest(", Old: "\t// Ensure the client has authenticated after the handshake if necessary\n", New: "\tif command == statsCommand {\n\t\treturn i.handleStats(client, seq)\n\t}\n", Expect: "R1"},
 			{Name: "auth-gate-or", File: "cmd/serf/command/agent/ipc.go", Func: "func (i *AgentIPC) handleRequest(", Old: "i.authKey != \"\" && !client.didAuth && command != authCommand && command != handshakeCommand", New: "i.authKey != \"\" && !client.didAuth && command != authCommand && command != handshakeCommand && command != membersCommand", Expect: "R1"},
 			{Name: "handshake-gate-skips-members", File: "cmd/serf/command/agent/ipc.go", Func: "func (i *AgentIPC) handleRequest(", Old: "if command != handshakeCommand && client.version == 0 {", New: "if command != handshakeCommand && command != statsCommand && client.version == 0 {", Expect: "R1"},
